@@ -3,7 +3,7 @@ import contextlib
 import itertools
 
 from framework import Issue
-from world import UserExc, drive, exc_name, asyncstdlib
+from world import UserBaseExc, UserExc, drive, exc_name, asyncstdlib
 
 RULE = (
     "unwind cases: every stack of 0..N entries over the behaviour grid {no exception-> falsy|truthy|raise new|raise the block's "
@@ -19,7 +19,7 @@ SCOPE = {"quick": "behaviour grid exhaustive for stacks of 0..3 entries (kinds s
 ASSUMPTIONS = [
     "__context__/__traceback__ stitching is not compared",
     "exits do not register further exits while the stack unwinds",
-    "exception identity is compared through the injected id carried by the object",
+    "exception identity is compared through the injected id carried by the object (objects interned per run); odd ids are BaseException subclasses (cancellation-like)",
 ]
 KINDS = ["acm", "scm", "pcm", "pa", "ps", "cb", "acb"]
 BODY_EXC = 5
@@ -33,7 +33,8 @@ def _exc(eid):
     so a handler raising id 5 raises the very object the block raised (the model identifies
     exception objects with their ids)"""
     if eid not in _EXCS:
-        _EXCS[eid] = UserExc(eid)
+        # odd ids are BaseException subclasses (cancellation-like), even ids ordinary Exceptions
+        _EXCS[eid] = UserBaseExc(eid) if eid % 2 else UserExc(eid)
     return _EXCS[eid]
 
 
@@ -167,7 +168,7 @@ def _run(coro):
     if res.exc is not None:
         res.exc.__traceback__ = None
         res.exc.__context__ = None
-    return getattr(res.exc, "eid", None) if isinstance(res.exc, UserExc) else exc_name(res.exc)
+    return getattr(res.exc, "eid", None) if isinstance(res.exc, (UserExc, UserBaseExc)) else exc_name(res.exc)
 
 
 def _observe_unwind(case):
@@ -221,7 +222,7 @@ def _observe_history(case, std=False):
                     try:
                         stack.enter_context(cm)
                         res = None
-                    except UserExc as exc:
+                    except (UserExc, UserBaseExc) as exc:
                         res = type("R", (), {"exc": exc})
             else:
                 res = drive(stack.enter_context(cm))
